@@ -30,20 +30,17 @@ pub fn to_listing(
 
             let mut data = vec![];
             for offset in &offsets {
-                for segment in ctx.segments().values() {
-                    if segment.range().start <= offset.pc.start
-                        && segment.range().end >= offset.pc.end
-                    {
-                        let mut start = offset.pc.start - segment.range().start;
-                        let end = start + (offset.pc.end - offset.pc.start);
+                // The offsets are target addresses: a relocated segment stores its bytes somewhere else
+                if let Some(segment) = ctx.segments().get(&offset.segment) {
+                    let target_start = segment.range().start as i64 + segment.target_offset();
+                    let mut start = (offset.pc.start as i64 - target_start) as usize;
+                    let end = start + (offset.pc.end - offset.pc.start);
 
-                        let mut pc = offset.pc.start;
-                        while start < end {
-                            data.push((pc, segment.range_data()[start]));
-                            start += 1;
-                            pc += 1;
-                        }
-                        break;
+                    let mut pc = offset.pc.start;
+                    while start < end && start < segment.range_data().len() {
+                        data.push((pc, segment.range_data()[start]));
+                        start += 1;
+                        pc += 1;
                     }
                 }
             }
